@@ -455,7 +455,53 @@ def replay_history(hist):
     return vs
 
 
+def reference_files():
+    """Files written by the INDEPENDENT encoder (documented cell layout: note, velocity, module number at offset 2,
+    controller/effect word, parameter word): after loading, every cell's module number is the documented one and
+    `note.mod` is the module at that position (or None) -- for layouts with and without empty module positions."""
+    from rvref import absdev, codec
+
+    vs, n = [], 0
+    for layout in ([1, 1, 1], [1, 0, 1], [0, 0, 1], [1, 1, 0, 0, 1]):
+        mods = [absdev.make_output()] + [absdev.build_module("Amplifier", [], in_project=True) if x else None for x in layout]
+        pat = absdev.make_pattern()
+        lines, tracks = len(pat["cells"]), len(pat["cells"][0])
+        numbers = list(range(0, len(mods) + 2))
+        k = 0
+        for l in range(lines):
+            for t in range(tracks):
+                num = numbers[k % len(numbers)]
+                k += 1
+                # every other field distinct from the module number, so that a transposed field is visible
+                pat["cells"][l][t] = [1 + (k % 100), 1 + k, num, 0x0300 + 17 * k, 0x1200 + k]
+        data = codec.encode(absdev.make_project(name="ref", modules=mods, patterns=[pat]))
+        case = {"reference_file": layout}
+        try:
+            p = C.load_bytes(data)
+        except Exception as e:
+            vs.append(C.viol("reference-file-not-loadable", {"exc": type(e).__name__}, {"error": repr(e)[:200]}, case))
+            continue
+        pt = p.patterns[0]
+        for l in range(lines):
+            for t in range(tracks):
+                n += 1
+                want_num = pat["cells"][l][t][2]
+                nt = pt.data[l][t]
+                want_mod = None if want_num == 0 or want_num - 1 >= len(p.modules) else p.modules[want_num - 1]
+                try:
+                    got_mod = nt.mod
+                except Exception as e:
+                    vs.append(C.viol("note-mod-raises", {"inv": "note.mod", "origin": "reference-file"}, {"error": repr(e)[:120]}, case))
+                    continue
+                if nt.module != want_num or got_mod is not want_mod:
+                    vs.append(C.viol("note-module-of-reference-file", {"layout": "".join(map(str, layout))},
+                                     {"cell": [l, t], "documented_number": want_num, "loaded_number": nt.module}, case))
+    return n, vs[:6]
+
+
 def run_case(case):
+    if "reference_file" in case:
+        return [v for v in reference_files()[1] if v["case"] == case]
     return replay_history(case["history"])
 
 
@@ -469,7 +515,10 @@ def run(ctx):
     res = explorer.bfs(ctx, sysm, depth, op_indices=body, chunk=4,
                        init_histories=[()] + [(i,) for i in range(N_INIT)])
     ctx.add(res.violations)
+    n_ref, v_ref = reference_files()
+    ctx.add(v_ref)
     return {
+        "cells_of_reference_encoded_files": n_ref,
         "states": res.states,
         "transitions": res.transitions,
         "traces_validated_against_impl": res.transitions,
